@@ -585,6 +585,21 @@ func (fr *Frame) srcValue(name string) (ssa.Value, bool) {
 	return nil, false
 }
 
+// globalLoc: the location of a package-level variable (usable without a frame, e.g. in lemmas).
+func (e *Engine) globalLoc(v *ssa.Global) Term {
+	if e.topFrame != nil {
+		return e.topFrame.val(v)
+	}
+	vc := e.vc
+	n := sym("glob$" + shortName(v.String()))
+	if !vc.declared["glob:"+n] {
+		vc.decl("glob:"+n, fmt.Sprintf("(declare-const %s Loc)", n))
+		vc.decls = append(vc.decls, fmt.Sprintf("(assert (and (is_obj %s) (not (= %s nil)) (>= (rootid %s) 0) (< (rootid %s) alloc@0)))", n, n, n, n))
+		vc.globals = append(vc.globals, n)
+	}
+	return n
+}
+
 type unsupported string
 
 func (fr *Frame) unsup(f string, a ...any) {
